@@ -78,7 +78,7 @@ def fold_parse_read(repo, cigar, seq, qual, mq=37, multi=None, gene=None, ref_st
     return kind, val, norm, muts, me, ev
 
 
-def read_stub(cigar, start=START, supplementary=False, seq="AAAA", name="r1", ref_name="22", mapq=37, quals=None, tags=None):
+def read_stub(cigar, start=START, supplementary=False, seq="AAAA", name="r1", ref_name="22", mapq=37, quals=None, tags=None, flag=0):
     cs = "".join(f"{n}{OPS.get(o, '?')}" for o, n in cigar) if cigar else None
     ref_len = sum(n for o, n in (cigar or []) if o in CONSUMES_REF)
 
@@ -93,11 +93,15 @@ def read_stub(cigar, start=START, supplementary=False, seq="AAAA", name="r1", re
         return out
 
     tags = tags or {}
-    return Obj(cigartuples=list(cigar) if cigar else None, cigarstring=cs, reference_start=start,
+    if supplementary:
+        flag |= 0x800
+    supplementary = bool(flag & 0x800)
+    return Obj(flag=flag, is_qcfail=bool(flag & 0x200), is_reverse=bool(flag & 0x10), is_paired=bool(flag & 0x1), is_proper_pair=bool(flag & 0x2),
+               mate_is_unmapped=bool(flag & 0x8), is_read1=bool(flag & 0x40), is_read2=bool(flag & 0x80), cigartuples=list(cigar) if cigar else None, cigarstring=cs, reference_start=start,
                reference_end=(start + ref_len) if cigar else None, is_supplementary=supplementary, query_sequence=seq,
                query_name=name, reference_name=ref_name, reference_id=0 if cigar else -1, mapping_quality=mapq,
                query_qualities=quals, get_blocks=blocks, has_tag=lambda t: t in tags, get_tag=lambda t: tags[t],
-               is_secondary=False, is_duplicate=False, is_unmapped=cigar is None,
+               is_secondary=bool(flag & 0x100), is_duplicate=bool(flag & 0x400), is_unmapped=cigar is None or bool(flag & 0x4),
                get_reference_positions=lambda: [p for a, b in blocks() for p in range(a, b)])
 
 
